@@ -493,6 +493,34 @@ theorem whole_diff_sbs_row_reading (al : AlignOf) (hal : ValidAlign al) (mf pf :
   · rw [(specRows_numbers al hal bs h.a h.c).1, hflat]
   · rw [(specRows_numbers al hal bs h.a h.c).2, hflat]
 
+/-- **Every cell of every rendered row is a true number of this hunk or blank**: each row of a shown hunk is the header
+    row or a panel row stamped with this header's width and this file's plus-file whose left cell is blank or shows an
+    old-file line number of this hunk (`a ≤ n < a + #old-file lines`) and whose right cell is blank or shows a new-file
+    line number of this hunk (`c ≤ n < c + #new-file lines`); by `whole_diff_sbs_row_reading` each of these numbers
+    occurs exactly once, in increasing order — the `k`-th numbered left cell belongs to the `k`-th removed / unchanged
+    line. Nothing counted from another hunk's header can appear. -/
+theorem whole_diff_sbs_every_cell_true_or_blank (al : AlignOf) (hal : ValidAlign al) (mf pf : String) (h : SHunk)
+    (v : List SView) (hv : HunkShown al mf pf h v) :
+    ∀ x ∈ v, x = .header (if pf = "/dev/null" then mf else pf) h.c ∨
+      ∃ l r, x = .line (some (l, r)) h.width pf ∧
+        (∀ n, l = some n → h.a ≤ n ∧ n < h.a + cntOld h.lines) ∧
+        (∀ n, r = some n → h.c ≤ n ∧ n < h.c + cntNew h.lines) := by
+  obtain ⟨bs, hflat, _, rfl⟩ := hv
+  intro x hx
+  simp only [hunkView, List.mem_cons, List.mem_map] at hx
+  rcases hx with rfl | ⟨y, hy, rfl⟩
+  · left; simp [headerPath_eq]
+  · right
+    refine ⟨y.1, y.2, rfl, ?_, ?_⟩
+    · intro n hn
+      have : n ∈ lefts (specRows al h.a h.c bs) := List.mem_filterMap.mpr ⟨y, hy, hn⟩
+      rw [(specRows_numbers al hal bs h.a h.c).1, hflat] at this
+      exact List.mem_range'_1.mp this
+    · intro n hn
+      have : n ∈ rights (specRows al h.a h.c bs) := List.mem_filterMap.mpr ⟨y, hy, hn⟩
+      rw [(specRows_numbers al hal bs h.a h.c).2, hflat] at this
+      exact List.mem_range'_1.mp this
+
 /-- **Every block is shown from the true numbers of its first lines**: in the rows of a hunk painted as the blocks
     `xs ++ b :: ys`, the rows of `b` are `blockSpec` (the specification of `sbs_numbers_true` / `sbs_zero_line_true`)
     started at `a + #{old-file lines of the hunk before b}` and `c + #{new-file lines before b}`. -/
@@ -558,6 +586,17 @@ example : (runWholeSbs 1 zipAlign (diffItemsS wholeSampleSbs)).toOption.map (·.
       .line (some (none, some 10)) 2 "src/a.rs",
       .header "old/b.txt" 0, .line (some (some 1234567, none)) 7 "/dev/null", .line (some (some 1234568, none)) 7 "/dev/null"] := by
   decide
+
+/-- the hypothesis `HunkShown` of the two reading theorems on a non-trivial value: the first hunk of `wholeSampleSbs` as
+    painted with buffer size 32 — blocks: the unchanged line, then one subhunk of two removed and one added line -/
+example : HunkShown zipAlign "src/a.rs" "src/a.rs"
+    ⟨119, some 3, 120, some 2, " fn f(".toList,
+      [(.ctx, ⟨2, false, 0⟩), (.minus, ⟨3, false, 1⟩), (.minus, ⟨1, true, 2⟩), (.plus, ⟨1, false, 3⟩)]⟩
+    [.header "src/a.rs" 120, .line (some (some 119, some 120)) 3 "src/a.rs", .line (some (none, none)) 3 "src/a.rs",
+     .line (some (some 120, some 121)) 3 "src/a.rs", .line (some (none, none)) 3 "src/a.rs",
+     .line (some (none, none)) 3 "src/a.rs", .line (some (some 121, none)) 3 "src/a.rs"] :=
+  ⟨[.zero ⟨2, false, 0⟩, .sub [⟨3, false, 1⟩, ⟨1, true, 2⟩] [⟨1, false, 3⟩]], by decide,
+   by intro b hb; simp at hb; rcases hb with rfl | rfl <;> simp [SBlock.wf], by decide⟩
 
 /-- `ValidAlign` is needed: an alignment that leaves a line out loses the line (here: the only line of the hunk) -/
 example : (runWholeSbs 32 (fun _ _ => []) [.names "a" "a", .header "@@ -5 +5 @@".toList,
